@@ -361,7 +361,8 @@ func runReportShape(c *core.Ctx) {
 	c.Check(s.Results[0] == absint.IsNil && s.Results[1] == absint.IsNil, "report.BuildSentryReport(nil)", fn.Pos(), "returns (nil, nil)", "a nil error does not yield (nil, nil): "+s.Results[0].String()+", "+s.Results[1].String())
 	// visitor closure
 	var visitor *ssa.Function
-	sx.EachInstr(fn, func(in ssa.Instruction) {
+	// (the collection may sit in a helper of BuildSentryReport; visitAllMulti itself is not entered)
+	regionOf(fn, p.Func("report", "visitAllMulti")).each(func(in ssa.Instruction) {
 		if call, ok := in.(*ssa.Call); ok {
 			if cal := sx.Callee(call); cal != nil && cal.Name() == "visitAllMulti" && len(call.Call.Args) == 2 {
 				visitor = sx.FuncOf(call.Call.Args[1])
